@@ -80,12 +80,13 @@ pub fn generate(seed: u64, tier: &str, sink: &mut Sink) {
     hosts.push("a.b.ab".into());
     hosts.push("127.0.0.1".into());
     hosts.push("[::1]".into());
+    hosts.push("[fd00::12]".into());
     hosts.push("A.B".into());
     // absolute DNS names (trailing dot, kept by the url crate)
     hosts.push("a.".into());
     hosts.push("a.b.".into());
     hosts.push("ab.a.".into());
-    let entry_alpha: Vec<String> = ["a", "b", "ab", "a.b", "b.a", "", ".b", "B", "A.b", "0.1", "1", "::1]", "]", "b.", "."].iter().map(|s| s.to_string()).collect();
+    let entry_alpha: Vec<String> = ["a", "b", "ab", "a.b", "b.a", "", ".b", "B", "A.b", "0.1", "1", "::1]", "]", "b.", ".", "[::1]", "[FD00::12]", "[::2]", "127.0.0.1"].iter().map(|s| s.to_string()).collect();
     let mut lists: Vec<Vec<String>> = vec![vec![]];
     for e in &entry_alpha {
         lists.push(vec![e.clone()]);
@@ -123,8 +124,8 @@ pub fn generate(seed: u64, tier: &str, sink: &mut Sink) {
     crate::p_c09::generate_chains(seed ^ 0xC11C, if thorough { 3000 } else { 250 }, true, false, sink);
     // ---- from_env: assignments of the eight variables
     let proxy_vals: [Option<&str>; 7] = [None, Some(""), Some("  "), Some("http://env-h.test:8080"), Some("https://env-s.test"), Some("socks5://socks.test:1080"), Some("not a url")];
-    let np_vals: [Option<&str>; 10] = [None, Some(""), Some("*"), Some(" * "), Some("a.b,ab"), Some(" a.b , .ab ,, B "), Some("A.B"), Some(".b"), Some("localhost, "), Some("., a.b")];
-    let probes: Vec<Url> = ["http://a.b/", "https://a.b/", "http://x.a.b/", "http://xa.b/", "https://ab/", "http://zab/", "http://b/", "https://q.b/", "http://other/", "http://x.b./", "https://other./"].iter().map(|s| Url::parse(s).unwrap()).collect();
+    let np_vals: [Option<&str>; 11] = [None, Some(""), Some("*"), Some(" * "), Some("a.b,ab"), Some(" a.b , .ab ,, B "), Some("A.B"), Some(".b"), Some("localhost, "), Some("., a.b"), Some("[::1], [FD00::12]")];
+    let probes: Vec<Url> = ["http://a.b/", "https://a.b/", "http://x.a.b/", "http://xa.b/", "https://ab/", "http://zab/", "http://b/", "https://q.b/", "http://other/", "http://x.b./", "https://other./", "http://[::1]:8080/s", "https://[fd00::12]/", "http://[::2]/"].iter().map(|s| Url::parse(s).unwrap()).collect();
     let npn = np_vals.len() as u64;
     let total: u64 = 7u64.pow(6) * npn * npn;
     let n = if thorough { 400_000 } else { 12_000 };
